@@ -111,7 +111,7 @@ func (r *Rand) aliasBagDoc() *V {
 }
 
 func genAliasBag(r *Rand, tier string, emit func(string)) {
-	n := tierN(tier, 150, 3000)
+	n := tierN(tier, 150, 700)
 	for _, f := range ModelledFormats {
 		for i := 0; i < n; i++ {
 			d1 := r.WireDoc(f, r.aliasBagDoc(), r.P(50))
@@ -120,7 +120,7 @@ func genAliasBag(r *Rand, tier string, emit func(string)) {
 				d1 = append(d1, ' ')
 				d2 = append(d2, ' ')
 			}
-			if len(d1) > 30000 || len(d2) > 30000 {
+			if len(d1) > 6000 || len(d2) > 6000 {
 				continue
 			}
 			cut := func(d []byte) [][]byte {
